@@ -454,6 +454,14 @@ func vfFlipFlags(as []system.IP, k int) []system.IP {
 	return out
 }
 
+var (
+	c14Reenter     *RDNSS
+	c14Next        []system.IP
+	c14ReenterRA   *ndp.RouterAdvertisement
+	c14ReenterDone chan struct{}
+	c14ReenterErr  error
+)
+
 func c14Run(t *testing.T, out *vfh.Out, static []netip.Addr, as []system.IP) {
 	// one long-lived plugin per static list, asked about changing address lists
 	c14Cur = as
@@ -464,6 +472,25 @@ func c14Run(t *testing.T, out *vfh.Out, static []netip.Addr, as []system.IP) {
 			Addrs: func() ([]system.IP, error) {
 				if wildSourceFails {
 					return nil, errors.New("verif: the address dump failed")
+				}
+				// while this lookup is in flight the interface's addresses change, and only THEN
+				// another RA is built from the same plugin (a scrape, a solicited RA): that one sees
+				// the new addresses — it started after the change
+				if other := c14Reenter; other != nil {
+					c14Reenter = nil
+					old := c14Cur
+					c14Cur = c14Next
+					done := make(chan struct{})
+					c14ReenterDone = done
+					go func() {
+						defer close(done)
+						c14ReenterErr = other.Apply(c14ReenterRA)
+					}()
+					select {
+					case <-done:
+					case <-time.After(300 * time.Millisecond):
+					}
+					return old, nil
 				}
 				return c14Cur, nil
 			}}
@@ -509,7 +536,51 @@ func c14Run(t *testing.T, out *vfh.Out, static []netip.Addr, as []system.IP) {
 	for _, a := range as {
 		cands = append(cands, a.Address)
 	}
+	// in one run in five: the addresses change while the first build's lookup is in flight (every
+	// Deprecated flag flips), and a second build of the same plugin starts after the change
+	overlap := (len(as)*3+len(static))%5 == 2 && vfPrepareIfi == nil && len(as) > 0
+	if overlap {
+		next := append([]system.IP(nil), as...)
+		for i := range next {
+			next[i].Deprecated = !next[i].Deprecated
+		}
+		c14Next, c14Reenter = next, rd
+		c14ReenterRA, c14ReenterDone, c14ReenterErr = &ndp.RouterAdvertisement{}, nil, nil
+		defer func() {
+			c14Reenter = nil
+			if c14ReenterDone == nil {
+				return
+			}
+			c2 := new(vfh.Toks).S("wd").N(len(static))
+			for _, s := range static {
+				c2.Addr(s)
+			}
+			c2.N(len(next))
+			for _, a := range next {
+				vfSysIPToks(c2, a)
+			}
+			select {
+			case <-c14ReenterDone:
+			case <-time.After(5 * time.Second):
+				out.Line(c2.String(), "hung")
+				return
+			}
+			impl := new(vfh.Toks)
+			if c14ReenterErr != nil || len(c14ReenterRA.Options) != 1 {
+				impl.S("err")
+			} else if o, ok := c14ReenterRA.Options[0].(*ndp.RecursiveDNSServer); ok {
+				impl.N(len(o.Servers))
+				for _, s := range o.Servers {
+					impl.Addr(s)
+				}
+			}
+			out.Line(c2.String(), impl.String())
+		}()
+	}
 	for build := 0; build < 3; build++ {
+		if overlap && build == 1 {
+			c14Cur = as // the later builds of this run see the original list again
+		}
 		pre := vfWildPre(len(as)+len(static)+build, cands)
 		ra := &ndp.RouterAdvertisement{Options: append([]ndp.Option(nil), pre...)}
 		impl := new(vfh.Toks)
